@@ -82,6 +82,24 @@ reg('C12', 'harness.rounding', design_ref='6/C12',
     stubs=['round(leaf, tol) -> uninterpreted R(leaf, tol) via Leaf.__round__', 'klepto.crypto str/repr stubs for the stringmap configuration'],
     assumptions=['leaf values are opaque atoms; only their dynamic type (float/int/str) and equalities matter to the code', 'frozenset is treated like set; namedtuple like tuple (must be rebuilt with its own type)'],
     expect_labels=['C12:key', 'C12:originals', 'C12:tol-none', 'C12:standalone'])
+ARCH_STUBS = None
+def _arch_stubs():
+    from stubs import posixfs, sqlshim
+    return posixfs.STUBS + sqlshim.STUBS
+reg('C03', 'harness.arch', design_ref='6/C03',
+    bounds={'quick': 'archives dict, null, file(pickle), file(json), dir(pickle), dir(json), dir(fast), sqltable(:memory:), sqltable(db file): symbolic write prefix of <= 2 writes/deletes, then every operation of the 24-operation mapping alphabet with symbolic arguments (stores <= 3 entries); for persistent archives also 1 write + 2 operations (first from the 8 mutating ones); sibling archive isolation after every step; alias witnesses',
+            'thorough': 'prefix <= 3 then 1 operation; 1 write then every pair of operations'},
+    outside="serialized=False (source-text) archives, klepto._pickle internals (compression, memmap), HDF and sqlalchemy classes; real json turning int keys into str; dir/sql keys outside the concrete universes {'a','b',1,('t',2)}; more than 3 stored entries",
+    stubs=[], assumptions=['dict/null/file archives: keys and values are opaque atoms; dir/sql archives: keys from a concrete universe behind a symbolic selector, values atoms',
+                            'distinct dir keys are assumed to have distinct file names except in the alias scenario (which checks exactly that on witnesses)'],
+    expect_labels=['C03:contents', 'C03:result', 'C03:exception', 'C03:isolation', 'C03:copy-equal', 'C03:equality'])
+reg('C04', 'harness.arch', design_ref='6/C04',
+    bounds={'quick': 'file(pickle/json), dir(pickle/json/fast), sqltable(db file): symbolic history of 3 writes (file archives, symbolic keys) or 2 writes (dir/sql archives, 4-key universe) from {set, set of a mutable container that is mutated afterwards, delete, update}, then a reader obtained by constructor / reported state / copy() / dill round-trip / a handle opened before the writes',
+            'thorough': 'histories of 4 (file) / 3 (dir, sql) writes'},
+    outside='another OS process and the time after the writer exited (only the model file system / db file survives between handles here); fidelity of the real serializers on arbitrary values; serialized=False import caching; pickling of sqlite-backed archives',
+    stubs=[], assumptions=['as C03'], expect_labels=['C04:fresh-handle', 'C04:same-store', 'C04:settings'])
+for _p in ('C03', 'C04'):
+    REGISTRY[_p]['stubs'] = _arch_stubs()
 
 _T = 'bounded symbolic execution of the real code (ksym proxies on CPython), branch and obligation queries decided by z3, closed path tree, concrete replay of counterexamples'
 _N = 'trusted: CPython, z3 5.1, the ksym proxies (constant hash + solver-decided equality) and the listed stubs; atoms stand for arbitrary hashable non-fast-type objects; bounds as in evidence.coverage.bounds; no claim outside them'
@@ -97,9 +115,11 @@ TEXT = {
     'C11': {'level': 'for every shape/ignore specification in the bound, z3 shows keys equal <=> bindings equal outside the ignored arguments', 'note': _N, 'technique': _T},
     'C17': {'level': 'for every shape/ignore specification/keymap in the bound, the key is invariant under every iteration order of the sets built while computing it (symbolic permutations, z3-closed)', 'note': _N, 'technique': _T},
     'C12': {'level': 'for every structure in the family, every dynamic type of every leaf and every tol, the key computed by the real code equals the key of the oracle-rounded arguments (z3 validity over uninterpreted R), the function receives the original objects, tol=None rounds nothing and no structure makes the call fail', 'note': _N, 'technique': _T},
+    'C03': {'level': 'for every pre-state reachable by the write prefix and every operation with symbolic arguments within the bound, the real archive returns/raises what the dict oracle does and holds the same contents afterwards (z3 validity), failing operations leave contents unchanged, sibling archives are untouched, copy() is equal and independent', 'note': _N, 'technique': _T},
+    'C04': {'level': 'for every write history within the bound and every way of obtaining a second handle, the second handle holds exactly the oracle contents (snapshot values, original key types, same settings) and writes through it reach the first handle', 'note': _N, 'technique': _T},
     'C15': {'level': 'within the history bounds (calls interleaved with dump/load/clear/toggle), info() equals ground-truth counters derived from before/after snapshots of memory and archive', 'note': _N, 'technique': _T},
 }
 NOT_APPLICABLE = [
     {'property_id': p, 'reason': 'check not built yet in this session (planned in DESIGN.md §6); nothing is claimed for it so far'}
-    for p in ['C03', 'C04', 'C13', 'C14', 'C16', 'C18', 'C19', 'C20']
+    for p in [ 'C13', 'C14', 'C16', 'C18', 'C19', 'C20']
 ]
